@@ -486,6 +486,8 @@ pub struct CaseFile {
     pub property: String,
     pub plan: String,
     pub bytes: Vec<u8>,
+    /// the rendering of the decoded case at the time the file was written ("# case: ..." comment)
+    pub rendering: Option<String>,
 }
 
 pub fn write_case_file(path: &Path, property: &str, plan: &str, bytes: &[u8], note: &str) {
@@ -511,8 +513,13 @@ pub fn read_case_file(path: &Path) -> Result<CaseFile, String> {
     let mut property = String::new();
     let mut plan = String::new();
     let mut bytes = vec![];
+    let mut rendering = None;
     for line in text.lines() {
-        if let Some(v) = line.strip_prefix("property=") {
+        if let Some(v) = line.strip_prefix("# case: ") {
+            if !v.trim().is_empty() {
+                rendering = Some(v.trim().to_string());
+            }
+        } else if let Some(v) = line.strip_prefix("property=") {
             property = v.trim().to_string();
         } else if let Some(v) = line.strip_prefix("plan=") {
             plan = v.trim().to_string();
@@ -536,6 +543,7 @@ pub fn read_case_file(path: &Path) -> Result<CaseFile, String> {
         property,
         plan,
         bytes,
+        rendering,
     })
 }
 
@@ -728,6 +736,10 @@ fn check_inner(
     // generated search alone has to find a defect again
     let files = if std::env::var("XVF_NO_CORPUS").is_ok() { vec![] } else { corpus_files(&corpus_dir) };
     let mut corpus_replayed = 0u64;
+    // saved cases store decisions, not inputs: a generator change in front of them changes what
+    // they denote. Cases whose decoded rendering differs from the one recorded in the file are
+    // listed in the evidence (they are still replayed and must pass).
+    let mut corpus_drifted: Vec<String> = vec![];
     for f in &files {
         let cf = match read_case_file(f) {
             Ok(c) => c,
@@ -745,6 +757,12 @@ fn check_inner(
         };
         let out = run_case(prop, Input::Bytes(&cf.bytes), plan.knobs, known, false, false);
         corpus_replayed += 1;
+        if let Some(saved) = &cf.rendering {
+            let now = out.render.lines().next().unwrap_or("").trim().to_string();
+            if !now.is_empty() && now != *saved {
+                corpus_drifted.push(f.file_name().map(|n| n.to_string_lossy().to_string()).unwrap_or_default());
+            }
+        }
         account(&mut total, &out);
         if let Some(m) = is_fail(&out.verdict, known) {
             failure = Some((
@@ -871,6 +889,7 @@ fn check_inner(
         "labels": labels,
         "plans": plan_reports,
         "corpus_replayed": corpus_replayed,
+        "corpus_drifted": corpus_drifted,
         "excluded_by_finding": excluded,
         "cases_ending_in_known_finding": known_verdicts,
         "known_findings": known_lines,
